@@ -49,6 +49,8 @@ func (r *vDribbleReader) Read(p []byte) (int, error) {
 	return r.vCountingReader.Read(p)
 }
 
+var zSharedList = []int32{4, 5, 6}
+
 type vBufWriter struct{ b []byte }
 
 func (w *vBufWriter) Write(p []byte) (int, error) {
@@ -98,6 +100,10 @@ func zStreamValue(kind int, tag string, shared *ZInner) interface{} {
 		return string(rs)
 	case 12:
 		return float64(zSmall(tag)) + 0.25 // an 8-octet double
+	case 13:
+		return zSharedList // the same list every time: later occurrences travel as back-references
+	case 14:
+		return []interface{}{zSharedList, "in", zSharedList}
 	default: // a binary of two chunks (4096 + 1 octets)
 		b := make([]byte, 4097)
 		for i := range b {
@@ -119,9 +125,18 @@ func zStreamEq(kind int, a, b interface{}) bool {
 	case 2, 4:
 		x, ok := b.(*ZInner)
 		return ok && x != nil && eqZInner(a.(*ZInner), x)
-	case 3:
+	case 3, 13:
 		x, ok := b.([]int32)
 		return ok && eqInt32s(a.([]int32), x)
+	case 14:
+		x, ok := b.([]interface{})
+		if !ok || len(x) != 3 {
+			return false
+		}
+		l0, ok0 := x[0].([]int32)
+		s1, ok1 := x[1].(string)
+		l2, ok2 := x[2].([]int32)
+		return ok0 && ok1 && ok2 && s1 == "in" && eqInt32s(l0, zSharedList) && eqInt32s(l2, zSharedList)
 	case 5:
 		x, ok := b.(*ZOuter)
 		return ok && x != nil && eqZOuter(a.(*ZOuter), x)
@@ -161,7 +176,7 @@ func H_C06_stream() {
 	kinds := make([]int, n)
 	vals := make([]interface{}, n)
 	for i := range vals {
-		kinds[i] = vChoice("kind", 13)
+		kinds[i] = vChoice("kind", 15)
 		vals[i] = zStreamValue(kinds[i], "v", shared)
 	}
 	viaSerializer := vChoice("api", 2) == 1
